@@ -21,6 +21,10 @@ CHECKS = {
    text="On every outermost validate(inplace=False) of generated workloads (all parsing options x pass / eager fail / lazy fail x DataFrameSchema, SeriesSchema, Column, Index, MultiIndex, polars DataFrameSchema and Column on DataFrame and LazyFrame) the argument is snapshotted bit-for-bit before and after, including when it is a column-subset view, row-slice view or a Series taken from a frame; the result's container kind must equal the argument's.",
    note="Snapshot covers labels, order, dtypes, raw value bytes / typed cell reprs, index values/dtype/names, Series name; polars by schema + cell values. pandas attrs/flags are not compared.",
    ref="4/C04"),
+ "C11": dict(cat="exploration", tech="reference-model oracle over row identities of the real validate(lazy=True) output; docs examples executed",
+   text="Rows carry a hidden identity (unique int / string / MultiIndex labels; content+order on polars); after the real validate with drop_invalid_rows=True the surviving identities and values are compared with the rows on which the reference model finds every row-level constraint satisfied, in order; cases with a non-row violation must raise SchemaErrors (never return, never TypeError). The four examples of docs/source/drop_invalid_rows.md run as fixed cases.",
+   note="Unique non-null index labels (documented limitation); exact coercion only (int/float/datetime retyping); SeriesSchema with a failing index schema not judged; trusts pvm/model.py.",
+   ref="4/C11"),
 }
 NOT_YET = {}
 
